@@ -229,3 +229,19 @@ Print Assumptions C15_shift_keeps_pattern_spec.
 Theorem C15_shift_keeps_pattern_refuted : exists N M pat G p', gg_shift_as_is N M pat = GGOk (G, p') /\ p' <> pat.
 Proof. exact shift_as_is_changes_pattern. Qed.
 Print Assumptions C15_shift_keeps_pattern_refuted.
+
+(* ---- complete and empty graphs are the named graphs ---- *)
+Theorem C15_complete_bipartite : forall L R, 0 <= L -> 0 <= R -> exists G, gg_complete_bipartite L R = GGOk G /\
+  io_kind G = KBipartite /\ io_n G = L /\ io_r G = R /\ gg_nedges G = L * R /\
+  (forall u v, gio_has_edge G u v = true <-> 1 <= u <= L /\ 1 <= v <= R).
+Proof. exact complete_bipartite_shape. Qed.
+Print Assumptions C15_complete_bipartite.
+Theorem C15_complete_simple : forall n, 0 <= n -> exists G, gg_complete_simple n = GGOk G /\
+  io_kind G = KSimple /\ io_n G = n /\ 2 * gg_nedges G = n * (n - 1) /\
+  (forall u v, gio_has_edge G u v = true <-> 1 <= u <= n /\ 1 <= v <= n /\ u <> v).
+Proof. exact complete_simple_shape. Qed.
+Print Assumptions C15_complete_simple.
+Theorem C15_empty_graphs : forall L R n, 0 <= L -> 0 <= R -> 0 <= n ->
+  gg_empty_bipartite L R = GGOk (mkIOG KBipartite [] L R []) /\ gg_empty_simple n = GGOk (mkIOG KSimple [] n 0 []).
+Proof. exact empty_shapes. Qed.
+Print Assumptions C15_empty_graphs.
